@@ -258,3 +258,136 @@ def vectors(outcome):
         elif ent:
             vecs.append([ent])
     return vecs, tail
+
+
+# ================================================================== call forms
+# (label, call expression, callee expression whose length/name is read, setup)
+CALL_FORMS = [
+    ("plain", "f(ARGS)", "f", ""),
+    ("method", "o.f(ARGS)", "o.f", ""),
+    ("computed", 'o["f"](ARGS)', 'o["f"]', ""),
+    ("call", "f.call(t, ARGS)", "f", ""),
+    ("apply", "f.apply(t, [ARGS])", "f", ""),
+    ("bind", "f.bind(t)(ARGS)", "f.bind(t)", ""),
+    ("bind_call", "f.bind(t).call(u, ARGS)", "f.bind(t)", ""),
+    ("bind_partial", "f.bind(t, 7)(ARGS)", "f.bind(t, 7)", ""),
+    ("new", "new f(ARGS)", "f", ""),
+    ("callback", "[1].map(f)[0]", "f", ""),
+    ("getter", "o.gp", "f", 'Object.defineProperty(o, "gp", {get: f, enumerable: true, configurable: true});\n'),
+    ("setter", "(o.sp = 1)", "f", 'Object.defineProperty(o, "sp", {set: f, enumerable: true, configurable: true});\n'),
+]
+
+FUNCTION_KINDS = [
+    ("declaration", "function f(a, b) { BODY }"),
+    ("expression", "var f = function (a, b) { BODY };"),
+    ("named_expression", "var f = function g(a, b) { BODY };"),
+    ("arrow_top_level", "var f = (a, b) => { BODY };"),
+    ("arrow_in_method", "var holder = {mk: function () { return (a, b) => { BODY } }}; var f = holder.mk(9, 8, 6);"),
+    ("arrow_in_constructor", "function C() { this.af = (a, b) => { BODY } } var inst = new C(9); var f = inst.af;"),
+    ("method_shorthand", "var holder = {f(a, b) { BODY }}; var f = holder.f;"),
+    ("bound", "function f0(a, b) { BODY } var f = f0.bind(w);"),
+]
+
+# (label, body, post-call pushes, primitive thisArgs?)
+CALL_PROBES = [
+    ("this_identity", "L.push(who(this)); return 0", "", False),
+    ("this_primitive", "L.push(typeof this); return 0", "", True),
+    ("arguments_length", "L.push(arguments.length); return 0", "", False),
+    ("arguments_values", "L.push(p(arguments[0])); L.push(p(arguments[1])); L.push(p(arguments[2])); return 0", "", False),
+    ("parameters", "L.push(p(a)); L.push(p(b)); return 0", "", False),
+    ("function_length", "return 0", "L.push(CALLEE.length);", False),
+    ("function_name", "return 0", "L.push(CALLEE.name);", False),
+    ("prototype_property", "return 0", "L.push(typeof CALLEE.prototype);", False),
+    ("returns_object", "return RO", "", False),
+    ("returns_primitive", "return 5", "", False),
+]
+
+CALL_PROLOGUE = """var TOP = this, L = [];
+var t = %(t)s, u = %(u)s, w = {}, o = {}, RO = {}, holder, inst;
+function who(x) {
+  %(top)sif (x === undefined) return "undefined";
+  if (x === null) return "null";
+  if (typeof x !== "object" && typeof x !== "function") return typeof x;
+  if (x === t) return "t";
+  if (x === u) return "u";
+  if (x === w) return "w";
+  if (x === o) return "o";
+  if (x === RO) return "RO";
+  if (x === holder) return "holder";
+  if (x === inst) return "inst";
+  if (x === TOP) return "top";
+  return typeof x;
+}
+function p(x) { return (typeof x === "object" || typeof x === "function") ? who(x) : x }
+"""
+
+NEW_EXTRA = ("  try { L.push(res instanceof f) } catch (ex) { L.push(\"throw:\" + ex.name) }\n"
+             "  try { L.push(Object.getPrototypeOf(res) === f.prototype) } catch (ex) { L.push(\"throw:\" + ex.name) }\n")
+
+
+def call_program(form, kind, probe):
+    flabel, call, callee, setup = form
+    klabel, kdef = kind
+    plabel, body, post, prim = probe
+    src = CALL_PROLOGUE % {"t": "5" if prim else "{}", "u": '"s"' if prim else "{}",
+                           "top": 'if (x === TOP) return "top";\n  ' if klabel == "arrow_top_level" else ""}
+    src += kdef.replace("BODY", body) + "\no.f = f;\n" + setup
+    src += "var res;\ntry {\n  res = " + call.replace("ARGS", "1, 2") + ";\n  L.push(p(res));\n"
+    if flabel == "new":
+        src += NEW_EXTRA
+    src += '} catch (ex) { L.push("throw:" + ex.name) }\n'
+    if post:
+        src += 'try { ' + post.replace("CALLEE", callee) + ' } catch (ex) { L.push("throw:" + ex.name) }\n'
+    return src + "__out(L);\n0"
+
+
+def call_cases():
+    out = []
+    for form in CALL_FORMS:
+        for kind in FUNCTION_KINDS:
+            for probe in CALL_PROBES:
+                cid = "call form=%s kind=%s probe=%s" % (form[0], kind[0], probe[0])
+                out.append((cid, {"src": call_program(form, kind, probe), "tl": 30,
+                                  "form": form[0], "kind": kind[0], "probe": probe[0]}))
+    return out
+
+
+# natives: (label, definition, args, t, u, o, record after the call)
+NATIVES = [
+    ("Array.prototype.push", "var f = [].push;", "1, 2", "[]", "[]", "[]",
+     "L.push(t.length); L.push(u.length); L.push(o.length);"),
+    ("Math.max", "var f = Math.max;", "1, 2", "{}", "{}", "{}", ""),
+    ("Object.prototype.hasOwnProperty", "var f = Object.prototype.hasOwnProperty;", '"x", 2', "{x: 1}", "{}", "{y: 1}", ""),
+    ("Array.prototype.join", "var f = [].join;", '"-", 2', "[1, 2]", "[4]", "[3]", ""),
+]
+NATIVE_FORMS = [f for f in CALL_FORMS if f[0] not in ("callback", "getter", "setter")]
+NATIVE_PROBES = [("effect", ""), ("function_length", "L.push(CALLEE.length);"), ("function_name", "L.push(CALLEE.name);"),
+                 ("typeof", "L.push(typeof CALLEE);")]
+
+NATIVE_PROLOGUE = """var L = [];
+var t = %s, u = %s, o = %s;
+function p(x) { return (typeof x === "object" && x !== null) ? (x === t ? "t" : x === u ? "u" : x === o ? "o" : "object") : typeof x === "function" ? "function" : x }
+"""
+
+
+def native_program(form, nat, probe):
+    flabel, call, callee, _ = form
+    nlabel, ndef, args, t, u, o, rec = nat
+    plabel, post = probe
+    src = NATIVE_PROLOGUE % (t, u, o) + ndef + "\no.f = f;\nvar res;\n"
+    src += "try {\n  res = " + call.replace("ARGS", args) + ";\n  L.push(p(res));\n  " + rec + "\n"
+    src += '} catch (ex) { L.push("throw:" + ex.name) }\n'
+    if post:
+        src += 'try { ' + post.replace("CALLEE", callee) + ' } catch (ex) { L.push("throw:" + ex.name) }\n'
+    return src + "__out(L);\n0"
+
+
+def native_cases():
+    out = []
+    for form in NATIVE_FORMS:
+        for nat in NATIVES:
+            for probe in NATIVE_PROBES:
+                cid = "call form=%s kind=native:%s probe=%s" % (form[0], nat[0], probe[0])
+                out.append((cid, {"src": native_program(form, nat, probe), "tl": 30,
+                                  "form": form[0], "kind": "native:" + nat[0], "probe": probe[0]}))
+    return out
